@@ -54,9 +54,9 @@ def compare(need, obs):
     return msgs
 
 
-def check_case(ctx, case, record=True):
+def check_case(ctx, case, record=True, make_world=None, extra_classes=()):
     spec = case["spec"]
-    w = world.World(spec, registry=True)
+    w = make_world(spec) if make_world else world.World(spec, registry=True)
     w.init_sources()
     ent = refmodel.entries(spec)
     if record:
@@ -125,7 +125,8 @@ def check_case(ctx, case, record=True):
                      ["ood:proper_subset" if proper else "ood:none" if not ood else "ood:all",
                       "repeat_after_rebuild" if need["writes"] else "repeat_after_noop",
                       "fresh_time" if ft is not None else "no_fresh_time"]
-                     + (["fresh_eq_store_time"] if ft is not None and ft in times_before.values() else []))
+                     + (["fresh_eq_store_time"] if ft is not None and ft in times_before.values() else [])
+                     + list(extra_classes))
 
 
 def run_shard(ctx):
@@ -136,9 +137,14 @@ def run_shard(ctx):
         runner.guarded(ctx, check_case, case)
 
     runner.drive(ctx, test, ctx.n(7000, 80000))
+    from checks import c05_files
+    c05_files.run(ctx)
 
 
 def replay(ctx, case):
+    if case.get("kind") == "files":
+        from checks import c05_files
+        return c05_files.replay(ctx, case)
     case = common.decode(case)
     if "case" in case and "run" in case:
         case = case["case"]
